@@ -151,11 +151,15 @@ Satisfied(st) == /\ \A q \in 1 .. Len(st.cons) : ConstraintHolds(st, st.cons[q])
 (***************************************************************************)
 At(s, k, dflt) == IF k >= 1 /\ k <= Len(s) THEN s[k] ELSE dflt
 
+\* transcript operations of the first part, given the commitments the prover emits
+P1RngOps(st) ==
+  << OpA("m", "u64", Len(st.v)), OpRB >> \o [j \in 1 .. Len(st.v) |-> OpRK("v_blinding", st.vb[j])] \o << OpRF >>
+P1Ops(st, em) ==
+  P1RngOps(st) \o << OpA("A_I1", "pt", em.AI1), OpA("A_O1", "pt", em.AO1), OpA("S1", "pt", em.S1),
+                     IF st.ndefer = 0 THEN DomSep1Phase ELSE DomSep2Phase >>
+
 ProveP1(env, cap, st, d) ==
-  LET m == Len(st.v)
-      n1 == Len(st.aL)
-      rngops == << OpA("m", "u64", m), OpRB >>
-                  \o [j \in 1 .. m |-> OpRK("v_blinding", st.vb[j])] \o << OpRF >>
+  LET n1 == Len(st.aL)
       i1 == At(d, 1, 0)  o1 == At(d, 2, 0)  s1 == At(d, 3, 0)
       sL1 == [i \in 1 .. n1 |-> At(d, 3 + i, 0)]
       sR1 == [i \in 1 .. n1 |-> At(d, 3 + n1 + i, 0)]
@@ -164,14 +168,21 @@ ProveP1(env, cap, st, d) ==
       AO1 == Fadd(Fmul(o1, env.Bb), IP(st.aO, G1))
       S1 == Fadd(Fmul(s1, env.Bb), Fadd(IP(sL1, G1), IP(sR1, H1)))
   IN IF cap < n1
-     THEN [res |-> "InvalidGeneratorsLength", ops |-> rngops, used |-> 0, st |-> st, mid |-> << >>]
-     ELSE [res |-> "",
-           ops |-> rngops \o << OpA("A_I1", "pt", AI1), OpA("A_O1", "pt", AO1), OpA("S1", "pt", S1),
-                                IF st.ndefer = 0 THEN DomSep1Phase ELSE DomSep2Phase >>,
+     THEN [res |-> "InvalidGeneratorsLength", ops |-> P1RngOps(st), used |-> 0, st |-> st, mid |-> << >>]
+     ELSE [res |-> "", ops |-> << >>,
            used |-> 3 + 2 * n1,
            st |-> [st EXCEPT !.pending = NoPending],      \* create_randomized_constraints clears it
+           \* the reference prover's first-phase secrets and commitments
            mid |-> [n1 |-> n1, i1 |-> i1, o1 |-> o1, s1 |-> s1, sL1 |-> sL1, sR1 |-> sR1,
                     AI1 |-> AI1, AO1 |-> AO1, S1 |-> S1]]
+
+\* transcript operations of the second part, given the proof the prover emits
+P2Ops(pn, pf) ==
+  << OpA("A_I2", "pt", pf.AI2), OpA("A_O2", "pt", pf.AO2), OpA("S2", "pt", pf.S2), OpC("y"), OpC("z"),
+     OpA("T_1", "pt", pf.T1), OpA("T_3", "pt", pf.T3), OpA("T_4", "pt", pf.T4), OpA("T_5", "pt", pf.T5),
+     OpA("T_6", "pt", pf.T6), OpC("u"), OpC("x"),
+     OpA("t_x", "sc", pf.tx), OpA("t_x_blinding", "sc", pf.txb), OpA("e_blinding", "sc", pf.eb), OpC("w") >>
+  \o CreateOps(pn, pf)
 
 (***************************************************************************)
 (* Proving, second part.  st already contains whatever the callbacks       *)
@@ -237,15 +248,12 @@ ProveP2(env, cap, st, mid, d, ch) ==
       Hf == [i \in 1 .. pn |-> Fmul(yiv[i], Gf[i])]
       ipp == Create(lvec, rvec, Take(env.G, pn), Take(env.H, pn), Gf, Hf, Q, uk)
       ops1 == << OpA("A_I2", "pt", AI2), OpA("A_O2", "pt", AO2), OpA("S2", "pt", S2), OpC("y"), OpC("z") >>
-      ops2 == << OpA("T_1", "pt", T1), OpA("T_3", "pt", T3), OpA("T_4", "pt", T4), OpA("T_5", "pt", T5),
-                 OpA("T_6", "pt", T6), OpC("u"), OpC("x"),
-                 OpA("t_x", "sc", tx), OpA("t_x_blinding", "sc", txb), OpA("e_blinding", "sc", eb), OpC("w") >>
   IN IF cap < pn
      THEN [res |-> "InvalidGeneratorsLength", ops |-> << >>, used |-> 0, degenerate |-> FALSE, proof |-> << >>]
      ELSE IF y = 0
      THEN [res |-> "degenerate", ops |-> ops1, used |-> off + 2 * n2, degenerate |-> TRUE, proof |-> << >>]
      ELSE [res |-> IF ipp.degenerate THEN "degenerate" ELSE "ok",
-           ops |-> ops1 \o ops2 \o CreateOps(pn, ipp),
+           ops |-> << >>,          \* P2Ops(pn, proof emitted)
            used |-> off + 2 * n2 + 5,
            degenerate |-> ipp.degenerate,
            proof |-> [AI1 |-> mid.AI1, AO1 |-> mid.AO1, S1 |-> mid.S1, AI2 |-> AI2, AO2 |-> AO2, S2 |-> S2,
